@@ -261,7 +261,7 @@ works, this node leads and the batcher's timer has fired, every change of every 
 entry has been POSTed in a group labelled with its entry's index — or lies at or below a
 high-water mark announced by another node (which, by that node's own guarantee, delivered
 it). Hypotheses carried by the initial state: no finite retry limit (`maxRetries = 0`) and
-every stored item decompresses (`decodable = fun _ => true`; `at_least_once_under_flate_law`
+every stored item decompresses (`decodable = fun _ => true`; `at_least_once_single_group_under_flate_law`
 derives that from `FlateLaw`; see `flate_decompress_unbounded`, `decode_failure_witness`).
 Compared with `at_least_once_full` the one extra hypothesis is the exclusion `allSingleGroup`
 (`wfOps_iff`: `wfOps` = log order + every entry yields at most one event group). -/
